@@ -162,6 +162,13 @@ pub fn replay(j: &J) -> Result<J, String> {
                     }
                 }
             }
+            "is_ascii_compatible" | "is_single_byte" | "can_encode_everything" | "output_encoding" => {
+                // C20: re-evaluate the predicates of this encoding against its behaviour
+                let e = crate::spec::enc(j.get("encoding").and_then(|x| x.as_str()).ok_or("encoding")?);
+                let (_, v) = crate::sweep::c20::one(&e);
+                o.put("predicates", J::s(&format!("is_ascii_compatible {} is_single_byte {} can_encode_everything {} output_encoding {}", e.imp.is_ascii_compatible(), e.imp.is_single_byte(), e.imp.can_encode_everything(), e.imp.output_encoding().name())));
+                o.put("disagreements_with_behaviour", J::Arr(v.list.iter().map(|x| J::s(&x.msg)).collect()));
+            }
             _ => {
                 o.put("note", J::s("case documented by its input; re-run the check to re-evaluate"));
             }
